@@ -33,7 +33,7 @@ CLAIMED = {
         note="Trusts TLC, serde_json for value fidelity and the harness' flat-node conversion. '/' is modelled as the root as built; non-canonical array index tokens are not generated."),
     "C19": dict(
         category="model_checking", design_ref="DESIGN.md §5 C19",
-        technique="TLA+ spec Fleet (retry loop, cached client, scripted node) checked by TLC over every outcome script; the scripts played against the real Fleet/AsyncFleet by a scripted fake node, single-stepped through a probe, and the recorded attempts trace-validated by TLC",
+        technique="TLA+ spec Fleet (retry loop, cached client, scripted node) checked by TLC over every outcome script; the scripts played against the real Fleet/AsyncFleet by a scripted fake node, single-stepped through a probe, and the recorded attempts trace-validated by TLC; fleet membership, cached connections and fan-out specified in FleetMembers.tla (two must-violate configs), its edge cover and random behaviours replayed call by call on Fleet and AsyncFleet",
         text="TLC checks the retry-loop model for max_attempts 1..3 over every script of length <= max+2 of the seven outcomes (AttemptBound, RetryOnlyTransport, StopAtFirstReply, NotWedged), with must-violate configurations for the retryable-error set. The same scripts are then played by a scripted TCP node against the real blocking and async fleets (all scripts for max 1-2, sampled for max 3 in the quick tier, all in the thorough tier), the retry loop single-stepped through a hook probe; each attempt (what the node did, what the loop saw), the call result and the two healthy-phase calls are validated by the trace specification. Broadcasts over every tag subset on 4 nodes are validated the same way.",
         note="Trusts TLC, the fake node, and the two add-only hook lines per retry loop (probe + attempt event). Time enters only through the node timeout of silent outcomes."),
     "C01": dict(
@@ -78,7 +78,7 @@ CLAIMED = {
         note="Trusts TLC and the raw WebSocket peer. Immediate = arrives while the others are parked; a slot counts as leaked after 10 s of refused retries."),
     "C17": dict(
         category="model_checking", design_ref="DESIGN.md §5 C17",
-        technique="TLA+ outbound guard (ServerConn!Guard, invariant NoOversize) checked by TLC; the (path, limit, size) product executed against the real server, proxy and client with a raw peer measuring every binary message, judged by TLC (Trace_Guard)",
+        technique="TLA+ outbound guard (ServerConn!Guard, invariant NoOversize) checked by TLC; the (path, limit, size) product executed against the real server, proxy and client with a raw peer measuring every binary message, judged by TLC (Trace_Guard); the proxy loop as a whole specified in ProxyConn.tla (must-violate: guard off) and every complete TLC behaviour replayed on proxy_connection_with_limits between a raw peer and a scripted upstream",
         text="TLC checks that with a limit configured no oversize message reaches the wire and the one-response discipline survives the replacement. For limits 1 KiB and 64 KiB (plus 4 KiB and 16 MiB in the thorough tier) and none, and frame sizes limit-2..limit+2, limit/2 and 4/3 limit, each of seven outbound paths (inline response, off-reader response, proxy-forwarded response, handler-pushed notify, registry broadcast, client request, client notify) is exercised; a raw peer records the byte length of every binary message, error hooks and call results are recorded, and the trace specification requires unchanged delivery at or below the limit, an InternalError replacement with the same id / a reported drop / a local MessageTooLarge above it, and a usable connection afterwards.",
         note="Trusts TLC and the raw peer's length measurement."),
     "C15": dict(
